@@ -588,7 +588,7 @@ impl<'tcx> Cx<'tcx> {
             impl_of = format!("{{\"self_ty\":{},\"trait\":{}}}", self.ty(self_ty), tr);
         }
         format!(
-            "{{\"path\":{},\"vis\":{},\"reachable\":{},\"exported\":{},\"unsafe\":{},\"abi\":{},\"inputs\":[{}],\"output\":{},\"impl_of\":{},\"span\":{},\"ngenerics\":{}}}",
+            "{{\"path\":{},\"vis\":{},\"reachable\":{},\"exported\":{},\"unsafe\":{},\"abi\":{},\"inputs\":[{}],\"output\":{},\"impl_of\":{},\"span\":{},\"generics\":[{}]}}",
             esc(&tcx.def_path_str(did)),
             esc(&format!("{:?}", tcx.visibility(did))),
             ev.is_reachable(ldid),
@@ -599,7 +599,10 @@ impl<'tcx> Cx<'tcx> {
             self.ty(io.output()),
             impl_of,
             self.span(tcx.def_span(did)),
-            tcx.generics_of(did).own_params.len()
+            {
+                let g = tcx.generics_of(did);
+                (0..g.count()).map(|i| esc(g.param_at(i, tcx).name.as_str())).collect::<Vec<_>>().join(",")
+            }
         )
     }
 }
